@@ -643,6 +643,39 @@ def text_ops(n, seed):
 # ------------------------------------------------------------------------------------------------------------------
 
 
+def exec_merge(case, obs):
+    """merge() is the inverse selection: part files numbered 1..k, concatenated in NUMERIC order of their numbers,
+    give back the stack they were cut from (returned array in the requested order, and the written file)."""
+    from cryocat import tiltstack as ts
+
+    (k, sizes_kind, naming, dtype), (out_order, with_file), seed = case
+    clean_cwd()
+    sizes = [1 + ((j + (1 if sizes_kind == "mixed" else 0)) % 2 if sizes_kind != "single" else 0) for j in range(k)]
+    n = sum(sizes)
+    S = stack(n, 5, 4, dtype, seed)
+    pos = 0
+    # files are created in an order that is neither numeric nor lexicographic
+    parts = []
+    for j, sz in enumerate(sizes):
+        parts.append((j + 1, S[pos:pos + sz]))
+        pos += sz
+    for num, P in sorted(parts, key=lambda t: (t[0] * 7) % (k + 1)):
+        name = f"part_{num}.mrc" if naming == "plain" else f"part_{num:03d}.mrc"
+        mrcfmt.write(name, P.transpose(2, 1, 0), ispg=0)
+    out_file = "merged.mrc" if with_file else None
+    vcls = f"parts={k},{sizes_kind},{naming},out={out_order}"
+    with quiet():
+        r = obs.lib("merge", ts.merge, "part_*.mrc", output_file=out_file, output_order=out_order)
+    got = to_nyx(r, out_order)
+    obs.nontrivial = k >= 2
+    ok = obs.check(got.shape == S.shape and np.array_equal(got.astype(np.float64), S.astype(np.float64)), "merge", "merge-concatenates-in-numeric-order",
+                   lambda: f"{k} part files of {sizes} tilts: returned shape {got.shape}; first tilt codes {[int(np.asarray(got)[i, 0, 0]) for i in range(min(len(got), 14))] if np.ndim(got) == 3 else '?'}"
+                           f" expected {[int(S[i, 0, 0]) for i in range(min(n, 14))]}", cls=vcls)
+    if with_file:
+        check_files(obs, "merge", ["merged.mrc"], [S], dtype, vcls)
+    obs.outcome = (k, sizes_kind, digest([np.asarray(got)], ["merged.mrc"] if with_file else []))
+
+
 def families(tier, seed):
     quick = tier == "quick"
     ns = [2, 3, 4] if quick else [2, 3, 4, 5, 6]
@@ -678,6 +711,11 @@ def families(tier, seed):
                        "flip-composition", "file-dims", "file-values", "file-dtype")),
         Family("text-file-arguments", tf, exec_textfile, describe=describe_d1, expect=()),
     ]
+    mk = [1, 2, 3, 9, 10, 11, 13] if quick else list(range(1, 26))
+    mcases = [(k, sk, nm, dt) for k in mk for sk in ("single", "alternating", "mixed") for nm in ("plain", "zero-padded") for dt in dtypes]
+    fams.append(Family("merge-parts", Mapped(Product(mcases, [("zyx", False), ("xyz", True), ("zyx", True)]), lambda c: (c[0], c[1], seed)), exec_merge,
+                       describe=lambda c: {"part_files": c[0][0], "tilts_per_part": c[0][1], "naming": c[0][2], "dtype": c[0][3], "output_order": c[1][0], "output_file": c[1][1]},
+                       expect=("merge-concatenates-in-numeric-order", "file-values")))
     if not quick:
         big = (25, 40, 28)
         bops = []
